@@ -394,6 +394,12 @@ int yr_base64_ast_from_string(
   {
     wide_str = ss_convert_to_wide(in_str);
 
+    if (wide_str == NULL)
+    {
+      strcpy(error->message, "Failure encoding base64 wide string");
+      return ERROR_INSUFFICIENT_MEMORY;
+    }
+
     if (modifier.flags & STRING_FLAGS_BASE64)
     {
       FAIL_ON_ERROR_WITH_CLEANUP(
